@@ -946,6 +946,15 @@ class DecidedExec(object):
     def _call(self, name, n, args, kwargs, st, ex, recv):
         f = n.func
         target, bound, closure = None, list(args), False
+        alias = None
+        if isinstance(f, ast.Name) and isinstance(st.env.get(f.id), Opaque):
+            # a callable bound to a local (`for get in (self._a, self._b): get()`, a class picked from a table): the call is that of the value
+            try:
+                fv = ast.parse(st.env[f.id].text, mode="eval").body
+            except SyntaxError:
+                fv = None
+            if isinstance(fv, (ast.Name, ast.Attribute)) and unparse(fv) != f.id:
+                alias, f = unparse(fv), fv
         if isinstance(f, ast.Name) and f.id not in st.env:
             if f.id in self.nested:
                 target, closure = self.nested[f.id], True
@@ -962,7 +971,11 @@ class DecidedExec(object):
             elif f.value.id == "self":
                 bound = [st.env.get("self", Opaque("self"))] + bound
         if target is None or target is self.fn or target in self.active or len(self.active) >= 4 or not self.relevant(target):
-            return NotImplemented
+            if alias is None:
+                return NotImplemented
+            txt = "%s(%s)" % (alias, ", ".join([ex.text(a) for a in args] + ["%s=%s" % (k, ex.text(v)) for k, v in kwargs.items()]))
+            st.events.append(("call", txt, (alias, args, kwargs), getattr(n, "lineno", 0), tuple(l[1] for l in st.loops)))
+            return Opaque(txt)
         a = target.args
         if a.vararg or a.kwarg or len(bound) > len(a.args):
             return NotImplemented
@@ -1411,4 +1424,27 @@ WITNESSES = [
          silent=True,
          old='        prev_rule_time = (self._rule_iter - 2) * self._wn.options.time.rule_timestep\n        self._wn._prev_sim_time = prev_rule_time\n',
          new='        step = self._wn.options.time.rule_timestep\n        self._wn._prev_sim_time = self._rule_iter * step - 2 * step\n'),
+    # ---- round-2 shapes: the rule window as a generator-based context manager; the checkers table captured by the closure and one loop over bound methods
+    dict(name='quiet-rule-window-context-manager',
+         file=CORE,
+         silent=True,
+         old='        saved = self._wn._prev_sim_time\n        prev_rule_time = (self._rule_iter - 2) * self._wn.options.time.rule_timestep\n        self._wn._prev_sim_time = prev_rule_time\n        try:\n            return self._rules.check()\n        finally:\n            self._wn._prev_sim_time = saved\n',
+         new='        with self._rule_window():\n            return self._rules.check()\n\n    @contextlib.contextmanager\n    def _rule_window(self):\n        last_solution_time = self._wn._prev_sim_time\n        self._wn._prev_sim_time = (self._rule_iter - 2) * self._wn.options.time.rule_timestep\n        try:\n            yield\n        finally:\n            self._wn._prev_sim_time = last_solution_time\n',
+         also=[('import itertools\n', 'import itertools\nimport contextlib\n')]),
+    dict(name='rule-window-context-manager-does-not-restore',
+         file=CORE,
+         rule='R-C04-4',
+         old='        saved = self._wn._prev_sim_time\n        prev_rule_time = (self._rule_iter - 2) * self._wn.options.time.rule_timestep\n        self._wn._prev_sim_time = prev_rule_time\n        try:\n            return self._rules.check()\n        finally:\n            self._wn._prev_sim_time = saved\n',
+         new='        with self._rule_window():\n            return self._rules.check()\n\n    @contextlib.contextmanager\n    def _rule_window(self):\n        self._wn._prev_sim_time = (self._rule_iter - 2) * self._wn.options.time.rule_timestep\n        yield\n',
+         also=[('import itertools\n', 'import itertools\nimport contextlib\n')]),
+    dict(name='quiet-categorize-captured-table-loop-over-bound-methods',
+         file=CORE,
+         silent=True,
+         old='        def categorize_control(control):\n            if control.epanet_control_type in {_ControlType.presolve, _ControlType.pre_and_postsolve}:\n                self._presolve_controls.register_control(control)\n            if control.epanet_control_type in {_ControlType.postsolve, _ControlType.pre_and_postsolve}:\n                self._postsolve_controls.register_control(control)\n            if control.epanet_control_type == _ControlType.rule:\n                self._rules.register_control(control)\n            if control.epanet_control_type == _ControlType.feasibility:\n                self._feasibility_controls.register_control(control)\n\n        for c_name, c in self._wn.controls():\n            categorize_control(c)\n        for c in self._get_all_tank_controls():\n            categorize_control(c)\n        for c in self._get_cv_controls():\n            categorize_control(c)\n        for c in self._get_pump_controls():\n            categorize_control(c)\n        for c in self._get_valve_controls():\n            categorize_control(c)\n',
+         new='        managers_by_type = {\n            _ControlType.presolve: (self._presolve_controls,),\n            _ControlType.pre_and_postsolve: (self._presolve_controls, self._postsolve_controls),\n            _ControlType.postsolve: (self._postsolve_controls,),\n            _ControlType.rule: (self._rules,),\n            _ControlType.feasibility: (self._feasibility_controls,),\n        }\n\n        def categorize_control(control):\n            for manager in managers_by_type.get(control.epanet_control_type, ()):\n                manager.register_control(control)\n\n        for c_name, c in self._wn.controls():\n            categorize_control(c)\n        for get_internal_controls in (self._get_all_tank_controls, self._get_cv_controls,\n                                      self._get_pump_controls, self._get_valve_controls):\n            for c in get_internal_controls():\n                categorize_control(c)\n'),
+    dict(name='bound-method-loop-misses-valve-controls',
+         file=CORE,
+         rule='R-C04-5',
+         old='        def categorize_control(control):\n            if control.epanet_control_type in {_ControlType.presolve, _ControlType.pre_and_postsolve}:\n                self._presolve_controls.register_control(control)\n            if control.epanet_control_type in {_ControlType.postsolve, _ControlType.pre_and_postsolve}:\n                self._postsolve_controls.register_control(control)\n            if control.epanet_control_type == _ControlType.rule:\n                self._rules.register_control(control)\n            if control.epanet_control_type == _ControlType.feasibility:\n                self._feasibility_controls.register_control(control)\n\n        for c_name, c in self._wn.controls():\n            categorize_control(c)\n        for c in self._get_all_tank_controls():\n            categorize_control(c)\n        for c in self._get_cv_controls():\n            categorize_control(c)\n        for c in self._get_pump_controls():\n            categorize_control(c)\n        for c in self._get_valve_controls():\n            categorize_control(c)\n',
+         new='        def categorize_control(control):\n            if control.epanet_control_type in {_ControlType.presolve, _ControlType.pre_and_postsolve}:\n                self._presolve_controls.register_control(control)\n            if control.epanet_control_type in {_ControlType.postsolve, _ControlType.pre_and_postsolve}:\n                self._postsolve_controls.register_control(control)\n            if control.epanet_control_type == _ControlType.rule:\n                self._rules.register_control(control)\n            if control.epanet_control_type == _ControlType.feasibility:\n                self._feasibility_controls.register_control(control)\n\n        for c_name, c in self._wn.controls():\n            categorize_control(c)\n        for get_internal_controls in (self._get_all_tank_controls, self._get_cv_controls, self._get_pump_controls):\n            for c in get_internal_controls():\n                categorize_control(c)\n'),
 ]
